@@ -25,6 +25,7 @@ iso.run: one Python-oracle child per config file, one Gin child for the parse + 
 one Python-oracle child for the emitted imports, one fresh Gin child for the re-parse.
 """
 import hashlib
+import importlib.util
 import inspect
 import os
 import shutil
@@ -74,8 +75,9 @@ RULE = ('Per case: a generated tree of 2 top-level packages / 11 modules (siblin
         'both orders of first use, and same-named leaf modules of sibling sub-packages by plain '
         'imports in both orders, `import a.b as b`, an alias re-bound inside one file, '
         'decorator-registered objects x parse variant, scoped references before a method '
-        'binding, and a numbered variant of a colliding alias; 119 cases) and every error '
-        'class x position (root / included / second root) x variant (108 cases).')
+        'binding, a numbered variant of a colliding alias, and references inside containers (dict key, '
+        'tuple in a dict value, nested list) before a method binding; 137 cases) and every error '
+        'class x position (root / included / second root) x variant (162 cases).')
 ASSUMPTIONS = [
     '`from X import Y` is generated only where Y is a module or package (Gin implements every '
     'import as __import__("X.Y")).',
@@ -98,6 +100,16 @@ ASSUMPTIONS = [
     '@gin.configurable nested Outer.Inner); the files configure them by Python path. They are '
     'never registered by the config\'s spelling, so they are exempt from the alias_collision / '
     'method_respelled analyses.',
+    'A reference may stand inside a container: as a dict KEY `{@ref: 5}` (always uncalled), in a '
+    'tuple inside a dict value `{"k": (@ref, 1)}`, in a nested list `[[@ref]]`. config_str() '
+    'documents that it leaves out values it cannot represent literally, and the pristine tree '
+    'treats a dict-key reference so whenever its emitted spelling differs from the text it was '
+    'written with; therefore the ABSENCE of a dict-key binding from the emitted text is tolerated '
+    '(label dict-key-binding-not-emitted; the fresh child is then compared with the model minus '
+    'those bindings) -- a wrong, extra or duplicated one is not.',
+    'Before a late enabling statement the injected fault places generated-package imports, only '
+    'Gin\'s own modules (gin.selector_map, gin.config_parser, `from gin import utils`, '
+    'gin.testdata.dynamic_registration when importable), or a mix.',
     'A root may be handed to gin.parse_config as a LIST with one entry per statement (documented '
     'form); it must behave like the newline-joined text (same model, same oracle).',
     'Identity of a configured/delivered object is observed through what calling it returns '
@@ -175,6 +187,10 @@ ERRORS = {
 }
 ERROR_KINDS = sorted(ERRORS)
 FEATURES = ['dynamic_registrations', 'registration', 'x']
+GIN_IMPORTS = ['import gin.selector_map', 'import gin.config_parser', 'from gin import utils',
+               'import gin.selector_map as sm']
+if importlib.util.find_spec('gin.testdata.dynamic_registration') is not None:
+  GIN_IMPORTS.append('from gin.testdata import dynamic_registration as dr')
 
 
 # ----------------------------------------------------------------------------- package tree
@@ -408,7 +424,12 @@ def _norm(v, tops, depth=0):
   if depth > 6:
     return '<deep>'
   if isinstance(v, dict):
-    return {k: _norm(x, tops, depth + 1) for k, x in v.items()}
+    if all(isinstance(k, str) for k in v):
+      return {k: _norm(x, tops, depth + 1) for k, x in v.items()}
+    return {'pairs': [[_norm(k, tops, depth + 1), _norm(x, tops, depth + 1)]
+                      for k, x in v.items()]}
+  if isinstance(v, (list, tuple)):
+    return [_norm(x, tops, depth + 1) for x in v]
   if v is None or isinstance(v, (int, str)):
     return v
   if inspect.isfunction(v) or inspect.isclass(v):
@@ -539,6 +560,49 @@ def _by_obj(table):
 _REF_SCOPES = {2: 's', 3: 's/t', 4: 's'}
 
 
+def _ref_of(spec):
+  """The reference inside a model value, or None."""
+  if spec[0] == 'ref':
+    return spec
+  if spec[0] == 'wrap':
+    return spec[2]
+  return None
+
+
+def _is_marker(v):
+  return (isinstance(v, tuple) and len(v) == 3 and v[0] == 'ref' and isinstance(v[1], str)
+          and isinstance(v[2], bool))
+
+
+def _markers(v):
+  """Reference markers anywhere inside a value read by _Reader (dict keys included)."""
+  if _is_marker(v):
+    yield v
+  elif isinstance(v, dict):
+    for k, x in v.items():
+      yield from _markers(k)
+      yield from _markers(x)
+  elif isinstance(v, (list, tuple)):
+    for x in v:
+      yield from _markers(x)
+
+
+def _unwrap(v):
+  """A value read by _Reader -> (container code, marker) for the generated container shapes."""
+  if _is_marker(v):
+    return 0, v
+  if isinstance(v, dict) and len(v) == 1:
+    (k, x), = v.items()
+    if _is_marker(k) and x == 5:
+      return 1, k                                   # {@ref: 5}
+    if k == 'k' and isinstance(x, tuple) and len(x) == 2 and _is_marker(x[0]) and x[1] == 1:
+      return 2, x[0]                                # {'k': (@ref, 1)}
+  if (isinstance(v, list) and len(v) == 1 and isinstance(v[0], list) and len(v[0]) == 1
+      and _is_marker(v[0][0])):
+    return 3, v[0][0]                               # [[@ref]]
+  return None, None
+
+
 def _segment(imps, lines, names, root, cache):
   """One stretch of a file in which the set of executed imports is constant."""
   if lines not in cache:
@@ -613,13 +677,16 @@ def _resolve_files(case, names, root, renames, overrides, cache):
         info['stmts'].append({'kind': 'b', 'objid': objid, 'path': path, 'seg': seg,
                               'param': params[param_i % 2], 'val': val, 'blk': bool(blk)})
       else:
-        _, imp_i, spell_i, param_i, imp_j, tdef_i, tspell_i, call = s
+        _, imp_i, spell_i, param_i, imp_j, tdef_i, tspell_i, call = s[:8]
+        wrap = s[8] % 4 if len(s) > 8 else 0
+        if wrap == 1:
+          call = {1: 0, 2: 4, 3: 4, True: 0}.get(call, call)     # a dict KEY is an uncalled ref
         holder, hpath = pick(seg, imp_i, 'cons', spell_i)
         tgt, tpath = pick(seg, imp_j, REF_DEFS[tdef_i % len(REF_DEFS)], tspell_i)
         info['stmts'].append({'kind': 'r', 'objid': holder, 'path': hpath, 'seg': seg,
                               'param': ('a', 'b')[param_i % 2], 'tobjid': tgt,
                               'tpath': tpath, 'call': call in (1, 2, 3, True),
-                              'scope': _REF_SCOPES.get(call, '')})
+                              'scope': _REF_SCOPES.get(call, ''), 'wrap': wrap})
     files.append(info)
   return files
 
@@ -723,7 +790,7 @@ def _emitted_respelled(imports, binds, table):
     if table.get(sel) is None:
       continue
     st_ = {'kind': 'b', 'objid': table[sel], 'path': sel, 'seg': info}
-    tsel = val[1].split('/')[-1] if isinstance(val, tuple) and val and val[0] == 'ref' else None
+    tsel = next((m[1].split('/')[-1] for m in _markers(val)), None)
     if tsel is not None and table.get(tsel) is not None:
       st_.update(kind='r', tobjid=table[tsel], tpath=tsel)
     info['stmts'].append(st_)
@@ -737,7 +804,7 @@ def _explains(findings, v, model):
   for (o, _), spec in model.items():
     if _is_method(o) and _class_of(o) in classes:
       involved.add(o)
-    if spec[0] == 'ref' and spec[1] in classes:
+    if _ref_of(spec) and _ref_of(spec)[1] in classes:
       involved.add(o)                       # a consumer holding a reference to the class
   names = {n for f in findings for n in (f['r_reg'], f['r_m']) if n}
   stale = [q for f in findings for _, q in f['stale']]
@@ -809,8 +876,9 @@ def _stmt_text(s):
       return f"{s['path']}:\n  {s['param']} = {s['val']}\n"
     return f"{s['path']}.{s['param']} = {s['val']}"
   scope = s.get('scope') or ''
-  return (f"{s['path']}.{s['param']} = @{scope + '/' if scope else ''}{s['tpath']}"
-          f"{'()' if s['call'] else ''}")
+  ref = f"@{scope + '/' if scope else ''}{s['tpath']}{'()' if s['call'] else ''}"
+  ref = {1: '{%s: 5}', 2: "{'k': (%s, 1)}", 3: '[[%s]]'}.get(s.get('wrap', 0), '%s') % ref
+  return f"{s['path']}.{s['param']} = {ref}"
 
 
 def _file_lines(info, items, paths):
@@ -861,10 +929,13 @@ def _expect_val(model, objid, param):
     return _DEFAULTS[param]
   if spec[0] == 'int':
     return spec[1]
-  _, tgt, call = spec[:3]     # the scope changes nothing: no binding is scoped
-  if call:
-    return _expect_call(model, tgt)
-  return {'callable': True, 'call': _expect_call(model, tgt)}
+  _, tgt, call = _ref_of(spec)[:3]     # the scope changes nothing: no binding is scoped
+  base = _expect_call(model, tgt)
+  if not call:
+    base = {'callable': True, 'call': base}
+  if spec[0] == 'wrap':
+    return {1: {'pairs': [[base, 5]]}, 2: {'k': [base, 1]}, 3: [[base]]}[spec[1]]
+  return base
 
 
 def _diff(a, b, path=''):
@@ -873,6 +944,12 @@ def _diff(a, b, path=''):
       if k not in a or k not in b:
         return f'{path}/{k}: {a.get(k, "<absent>")!r} != {b.get(k, "<absent>")!r}'
       d = _diff(a[k], b[k], path + '/' + str(k))
+      if d:
+        return d
+    return None
+  if isinstance(a, list) and isinstance(b, list) and len(a) == len(b):
+    for i, (x, y) in enumerate(zip(a, b)):
+      d = _diff(x, y, f'{path}[{i}]')
       if d:
         return d
     return None
@@ -970,7 +1047,16 @@ def _inject(case, files, texts):
     head.insert(1 + a % len(head), line)
   elif kind == 'late-enable':
     head.remove(ENABLE)
-    head.insert(1 + a % len(head), ENABLE)
+    gin_line = GIN_IMPORTS[(a + c) % len(GIN_IMPORTS)]
+    if b % 3 == 1:          # only Gin's own modules are imported before the enabling statement
+      head[:0] = [gin_line] + ([GIN_IMPORTS[a % len(GIN_IMPORTS)]] if c & 1 else []) + [ENABLE]
+      rel = 'gin-only'
+    elif b % 3 == 2:        # a Gin module and a generated one
+      head.insert(0, gin_line)
+      head.insert(2 + a % (len(head) - 1), ENABLE)
+      rel = 'mixed'
+    else:
+      head.insert(1 + a % len(head), ENABLE)
   elif kind == 'aliased-enable':
     head[0] = ENABLE + ' as ' + ['dr', 'dynamic_registration', 'gin'][a % 3]
   elif kind == 'unknown-feature':
@@ -1095,6 +1181,7 @@ def _check(case, root):
   spellings = {}
   first_ref = {}      # class objid -> file of the first @K reference to it
   scoped_ref = set()  # classes referenced through a scoped reference so far
+  key_ref = set()     # classes referenced as a dict key so far
   method_after_ref = False
   method_after_ref_other_file = False
   for fi, k in order:
@@ -1106,18 +1193,23 @@ def _check(case, root):
         cls = _class_of(s['objid'])
         if cls in scoped_ref:
           labels.add('method-after-scoped-reference')
+        if cls in key_ref:
+          labels.add('method-after-dict-key-reference')
         if cls in first_ref:
           method_after_ref = True
           if first_ref[cls] != fi:
             method_after_ref_other_file = True
     else:
-      model[(s['objid'], s['param'])] = ('ref', s['tobjid'], s['call'], s.get('scope') or '')
+      spec = ('ref', s['tobjid'], s['call'], s.get('scope') or '')
+      model[(s['objid'], s['param'])] = ('wrap', s['wrap'], spec) if s.get('wrap') else spec
       spellings.setdefault(s['tobjid'], set()).add(s['tpath'])
       first_ref.setdefault(s['tobjid'], fi)
       if s.get('scope'):
         scoped_ref.add(s['tobjid'])
+      if s.get('wrap') == 1:
+        key_ref.add(s['tobjid'])
   watch = sorted({o for o, _ in model} |
-                 {spec[1] for spec in model.values() if spec[0] == 'ref'} |
+                 {_ref_of(spec)[1] for spec in model.values() if _ref_of(spec)} |
                  {_class_of(o) for o, _ in model if _is_method(o)})
 
   # ---- labels
@@ -1164,6 +1256,10 @@ def _check(case, root):
         labels.add('ref-called' if s['call'] else 'ref-uncalled')
         if s.get('scope'):
           labels.add('ref-scoped')
+        if s.get('wrap'):
+          labels.add('ref-in-container')
+          if s['wrap'] == 1:
+            labels.add('ref-as-dict-key')
       elif s['blk']:
         labels.add('block-syntax')
       for key in ('path', 'tpath'):
@@ -1241,13 +1337,16 @@ def _denotes(text, tag, ctx):
     require(objid is not None, tag + '-selector-unresolvable',
             lambda: f'{sel!r} does not resolve in a fresh interpreter given the emitted '
                     f'imports\n{text}\nfiles:\n{_dump(texts)}')
-    if isinstance(val, tuple) and val and val[0] == 'ref':
-      *vscope, vsel = val[1].split('/')
+    wcode, marker = _unwrap(val)
+    if marker is not None:
+      *vscope, vsel = marker[1].split('/')
       selectors.append(vsel)
       tgt = et['table'].get(vsel)
       require(tgt is not None, tag + '-selector-unresolvable',
               lambda: f'reference {val!r} does not resolve\n{text}\nfiles:\n{_dump(texts)}')
-      v = ('ref', tgt, val[2], '/'.join(vscope))
+      v = ('ref', tgt, marker[2], '/'.join(vscope))
+      if wcode:
+        v = ('wrap', wcode, v)
     elif isinstance(val, int) and not isinstance(val, bool):
       v = ('int', val)
     else:
@@ -1256,6 +1355,14 @@ def _denotes(text, tag, ctx):
       raise _viol(tag + '-duplicate-binding',
                   f'{objid} {param} appears twice\n{text}\nfiles:\n{_dump(texts)}', obj=objid)
     emitted[(objid, param)] = v
+  # config_str() documents that it leaves out values it cannot represent literally.  The
+  # pristine tree treats `{@ref: v}` so whenever the emitted spelling of the key differs from
+  # the text it was written with (the key's hash is taken from its context-dependent repr), so
+  # the ABSENCE of a dict-key binding is tolerated (counted), never a wrong or extra one.
+  dropped = {k for k in set(model) - set(emitted)
+             if model[k][0] == 'wrap' and model[k][1] == 1}
+  ctx.setdefault('dropped', set()).update(dropped)
+  model = {k: v for k, v in model.items() if k not in ctx['dropped']}
   if emitted != model:
     missing = sorted(set(model) - set(emitted))
     extra = sorted(set(emitted) - set(model))
@@ -1358,8 +1465,16 @@ def _drive(ctx):
                       f'{r["msg"][:300]}\n{text}\nfiles:\n{_dump(texts)}')
     raise Violation('config-str-' + str(r['where']) + '-raised:' + r['type'],
                     f'{r["msg"][:600]}\n{text}\nfiles:\n{_dump(texts)}')
+  if ctx.get('dropped'):
+    labels.add('dict-key-binding-not-emitted')
+  model2 = {k: v for k, v in model.items() if k not in ctx.get('dropped', ())}
+  mentioned2 = ({o for o, _ in model2} | {_ref_of(v)[1] for v in model2.values() if _ref_of(v)} |
+                {_class_of(o) for o, _ in model2 if _is_method(o)})
   for o in watch:
-    d = _diff(p2['obs'][o], p1['obs'][o])
+    if o not in mentioned2:
+      continue          # only named by a left-out binding: the fresh child never registers it
+    # == the first process's observations, except for bindings config_str() left out
+    d = _diff(p2['obs'][o], p1['obs'][o] if not ctx.get('dropped') else _expect_call(model2, o))
     if d:
       resp = _emitted_respelled(imports, binds, et['table'])
       if resp and _explains(resp, _viol('wrong-object-or-value', '', obj=o), model):
@@ -1413,7 +1528,8 @@ def _case(draw):
                    st.sampled_from([0, 0, 0, 1])).map(list)
   ref = st.tuples(st.just('r'), imp_i, _small, st.integers(0, 1), imp_i,
                   st.sampled_from([0, 1, 2, 2, 2, 3, 4, 5, 6, 7, 8]), _small,
-                  st.sampled_from([1, 1, 0, 2, 2, 3, 4])).map(list)
+                  st.sampled_from([1, 1, 0, 2, 2, 3, 4]),
+                  st.sampled_from([0, 0, 0, 1, 1, 2, 3])).map(list)
   stmt = st.one_of(bind, bind, ref)
   nfiles = draw(st.sampled_from([1, 2, 2, 3, 3, 4]))
   files = []
@@ -1477,6 +1593,18 @@ def _sweep_forms(tier):
                     'files': [{'parent': None, 'at': 0, 'str': code == 3,
                                'imports': [[mod, form, 0]], 'stmts': stmts}],
                     'error': None, 'keep': False})
+  # a class first referenced inside a container (dict KEY, tuple in a dict value, nested list),
+  # then one of its methods configured
+  for mod, form in ((1, 0), (4, 3)):
+    for wrap in (1, 2, 3):
+      for code in (0, 1, 2):
+        stmts = [['r', 0, 0, 0, 0, 2, 0, code, wrap], ['b', 0, 2, 0, 1, 131, 0],
+                 ['b', 0, 3, 0, 0, 132, 0], ['r', 0, 0, 1, 0, 3, 0, code, wrap],
+                 ['b', 0, 6, 0, 1, 133, 0]]
+        cases.append({'pkg': {'init': [False] * 3, 'reexp': 0},
+                      'files': [{'parent': None, 'at': 0, 'str': bool(code & 1),
+                                 'imports': [[mod, form, 0]], 'stmts': stmts}],
+                      'error': None, 'keep': False})
   # one bound name used by two files plus a NUMBERED variant of it by a third import
   for form in (1, 3):
     for numbered in (6, 5):          # 'mm3' / 'mm2'
@@ -1578,7 +1706,7 @@ def _sweep_errors(tier):
   for kind in range(len(ERROR_KINDS)):
     for where in (0, 1, 2):
       for a in range(3):
-        for b in range(2):
+        for b in range(3):
           files = [
               {'parent': None, 'at': 1, 'str': bool(a & 1), 'imports': [[1, a, 0], [2, 2, 1]],
                'stmts': [['b', 0, 0, 0, 0, 1, 0], ['b', 1, 2, 0, 0, 2, 0]]},
@@ -1587,7 +1715,7 @@ def _sweep_errors(tier):
               {'parent': None, 'at': 0, 'str': bool(b), 'imports': [[7, 1, 5]],
                'stmts': [['b', 0, 1, 0, 0, 4, 0]]},
           ]
-          cases.append({'pkg': {'init': [bool(b)] * 3, 'reexp': 0}, 'files': files,
+          cases.append({'pkg': {'init': [bool(b & 1)] * 3, 'reexp': 0}, 'files': files,
                         'error': [kind, where, a, b, a + b], 'keep': False})
   return cases, True
 
